@@ -26,10 +26,13 @@ class C05(LBCheck):
           'must have received one each. Every 4th case instead drives a complete real client stack (C01\'s scenarios '
           'with joins and leaves under traffic and faults) and compares at final quiescence. '
           'Every 8th case puts the real ZooKeeperServerSetProvider (over the in-memory ZooKeeper, optionally naming an additional endpoint) under the balancer: member znodes are created, deleted and restarted under traffic and the eligible endpoints must equal the endpoints of the znodes present at every quiescent point. '
+          'Every 8th case (another one) uses member channels whose Close() yields: a loaded member leaves, drains to its last request, and 1-3 joins / leaves of other members (the heap root, idle members, the departed member itself) are queued for the instant in which that request completes and the balancer closes the drained channel under its own lock. '
           'non-trivial = a join or leave was delivered; distinct as C03')
   REQUIRED_CLASSES = ('heap', 'aperture', 'join-duplicate', 'leave-unknown', 'rejoin', 'notify-during-loading',
                       'rejoin-while-draining', 'removal', 'init-retry', 'saturation-probe', 'full-stack', 'tuple-endpoints', 'close-raises-on-leave', 'duplicates-in-initial-list',
-                      'named-endpoint', 'zk-backed', 'zk-backed:named-endpoint', 'zk-backed:restart', 'look-alike-endpoints')
+                      'named-endpoint', 'zk-backed', 'zk-backed:named-endpoint', 'zk-backed:restart', 'look-alike-endpoints',
+                      'yielding-close', 'yielding-close:closed-inside-completion', 'yielding-close:root-leaves-in-window',
+                      'yielding-close:idle-leaves-in-window', 'yielding-close:rejoin-in-window', 'thrift', 'mux')
   ASSUMPTIONS = ('eligible endpoints are read from the balancer\'s heap and idle set (observe_at: internal)',)
 
   def _zk_backed(self, env, rng, idx, tier):
@@ -197,13 +200,159 @@ class C05(LBCheck):
     out.sig = ('zk-backed', kind, named, lat_cls, nops, sorted(c for c in classes if ':' in c))
     return out
 
+  def _yielding_close(self, env, rng, idx, tier):
+    """Channels whose Close() yields (cooperative work inside it): the balancer closes a drained
+    departed member from inside the completion of its last request, under its own lock, and
+    joins / leaves of other members arrive in that very window."""
+    import gevent
+    from scales.loadbalancer.zookeeper import Endpoint
+    from vlib.framework import CaseResult
+    from vlib.lbworld import make_world, Member
+    out = CaseResult()
+    kind = rng.choice(['heap', 'aperture', 'aperture'])
+    classes = {kind, 'yielding-close'}
+    facts = {'balancer': kind, 'scenario': 'yielding-close'}
+    lb_params = {}
+    if kind == 'aperture':
+      lb_params = {'min_size': rng.choice([1, 2]), 'max_size': 2 ** 31, 'min_load': 0.5, 'max_load': 2.0,
+                   'jitter_min_sec': 0, 'jitter_max_sec': 0}
+    w = make_world(env, rng, kind, lb_params, lambda ch: (0.0, True))
+    lb, ss = w.lb, w.ss
+    pool = [Endpoint('y%02d' % i, 7300 + i) for i in range(12)]
+    for ep in pool[:rng.randint(4, 7)]:
+      ss.truth[ep] = Member(ep)
+    w.top.Open()
+    env.advance(0.2)
+    w.close_yields = True
+    live = []
+    stats = {'rounds': 0, 'window_notifications': 0}
+
+    def issue():
+      r = w.dispatch(timeout=None)
+      if r.get('raised'):
+        out.violate('dispatch:raised', 'dispatch raised %r' % (r['raised'][0],), facts, {'traceback': r['raised'][1]})
+      elif r['channel'] is not None and not r['deliveries']:
+        live.append(r)
+      return r
+
+    def finish(r):
+      if r in live:
+        live.remove(r)
+      if r['channel'] is not None and r in r['channel'].inflight:
+        w.complete(r, 'reply')
+
+    def check(where):
+      env.settle()
+      if ss.pending:
+        env.advance(0.05)
+      if ss.pending:
+        return
+      out.obligations += 1
+      heap_eps = [n.endpoint for n in lb._heap[1:]]
+      idle = set(getattr(lb, '_idle_endpoints', ()))
+      truth = set(ss.truth)
+      eligible = set(heap_eps) | idle
+      if len(heap_eps) != len(set(heap_eps)):
+        out.violate('membership:duplicate', '%s: endpoint appears twice in the balancer: %r' % (
+          where, sorted(map(str, heap_eps))), facts)
+      elif set(heap_eps) & idle:
+        out.violate('membership:active-and-idle', '%s: endpoints both active and idle: %r' % (
+          where, sorted(map(str, set(heap_eps) & idle))), facts)
+      elif eligible != truth:
+        out.violate('membership:differs', '%s: balancer can dispatch to %r, server set is %r' % (
+          where, sorted(map(str, eligible)), sorted(map(str, truth))),
+          dict(facts, missing=bool(truth - eligible), extra=bool(eligible - truth)))
+      for e in env.errors:
+        out.violate('greenlet-error:' + e['type'], '%s: unhandled exception in a balancer greenlet: %s: %s\n%s' % (
+          where, e['type'], e['value'], e['tb'][-400:]), dict(facts, exc=e['type']))
+      del env.errors[:]
+      if w.callback_errors:
+        out.violate('notification:raised', '%s: a join/leave notification raised inside the balancer: %r' % (
+          where, w.callback_errors[-1]), facts)
+        del w.callback_errors[:]
+
+    for _round in range(rng.choice([2, 4, 6])):
+      if len(out.violations) >= 4:
+        break
+      # ---- load: K requests held for a while, so that an aperture widens
+      K = rng.choice([3, 6, 10])
+      for _t in range(rng.choice([4, 12, 30])):
+        while len(live) < K:
+          if issue()['channel'] is None:
+            break
+        env.advance(0.5)
+        if live:
+          finish(live[rng.randrange(len(live))])
+      check('under load')
+      # ---- a loaded member leaves and drains down to its last request
+      loaded = sorted({r['channel'].ep for r in live if r['channel'].ep in ss.truth}, key=str)
+      if not loaded:
+        continue
+      P = rng.choice(loaded)
+      ss.leave(P)
+      env.settle()
+      mine = [r for r in live if r['channel'].ep == P]
+      for r in mine[1:]:
+        finish(r)
+      if rng.random() < 0.7:
+        for r in [r for r in live if r['channel'].ep != P]:
+          if rng.random() < 0.8:
+            finish(r)
+      env.advance(rng.choice([0.0, 10.0, 40.0]))     # the smoothed load follows the next event only
+      check('member draining')
+      if not mine or mine[0]['channel'].close_steps:
+        continue
+      # ---- notifications queued for the window in which the drained channel is being closed
+      y0 = w.close_yielded
+      for _n in range(rng.randint(1, 3)):
+        k = rng.random()
+        root = lb._heap[1].endpoint if lb._size else None
+        active = sorted((n.endpoint for n in lb._heap[1:]), key=str)
+        idle = sorted(getattr(lb, '_idle_endpoints', ()), key=str)
+        if k < 0.35 and root is not None and root in ss.truth:
+          ss.leave(root)
+          classes.add('yielding-close:root-leaves-in-window')
+        elif k < 0.5 and active:
+          ep = rng.choice(active)
+          if ep in ss.truth:
+            ss.leave(ep)
+        elif k < 0.65 and idle:
+          ss.leave(rng.choice(idle))
+          classes.add('yielding-close:idle-leaves-in-window')
+        elif k < 0.8:
+          ss.join(P)
+          classes.add('yielding-close:rejoin-in-window')
+        else:
+          ss.join(rng.choice(pool))
+        stats['window_notifications'] += 1
+      finish(mine[0])
+      stats['rounds'] += 1
+      if w.close_yielded > y0:
+        classes.add('yielding-close:closed-inside-completion')
+      check('after the drained member was closed')
+    for r in list(live):
+      finish(r)
+    env.advance(0.5)
+    check('end of history')
+    w.close_yields = False
+    w.top.Close()
+    env.settle()
+    out.classes = sorted(classes)
+    out.nontrivial = stats['rounds'] >= 1
+    out.extra = {'yc_rounds': stats['rounds'], 'yc_window_notifications': stats['window_notifications'],
+                 'yc_close_yields': w.close_yielded}
+    out.sig = ('yielding-close', kind, sorted(c for c in classes if ':' in c), min(stats['rounds'], 4))
+    return out
+
   def run_case(self, env, rng, idx, tier):
+    if idx % 8 == 6:
+      return self._yielding_close(env, rng, idx, tier)
     if idx % 8 == 5:
       return self._zk_backed(env, rng, idx, tier)
     if idx % 4 == 3:
       if not hasattr(self, '_full'):
         self._full = _FullStackMembership()
-      res = self._full.run_case(env, rng, idx, tier)
+      res = self._full.run_case(env, rng, idx // 4, tier)      # both parities: the stack kind alternates with the index
       res.classes = sorted(set(res.classes) | {'full-stack'})
       res.sig = ('full-stack', res.sig)
       return res
